@@ -439,7 +439,7 @@ def run_property(prop, tier, seed, only=None, procs=None, scale=1.0):
     if not subs:
         print("no sub-checks registered for", prop)
         return 2
-    findings = [f for f in load_known() if f.get("property") == prop]
+    findings = load_known()      # ids are unique; a finding may be referenced by the checks of a related property
     known_active = frozenset(f["id"] for f in findings if f.get("status") == "known") | \
         frozenset(x for x in os.environ.get("VP_ASSUME_KNOWN", "").split(",") if x)   # development aid only
     shrink_s = 20 if tier == "quick" else 120
